@@ -378,6 +378,18 @@ func (blockchain *Blockchain) BeginBlock(req abciTypes.RequestBeginBlock) abciTy
 				blockchain.stateDeliver.Accounts.AddBalance(item.Address, item.Coin, amount)
 			} else {
 				moveTo := blockchain.stateDeliver.Candidates.PubKey(item.GetMoveToCandidateID())
+				if !blockchain.stateDeliver.Candidates.Exists(moveTo) {
+					// the target candidate was removed while the coins were on their way: they leave
+					// staking like the stakes of a removed candidate and return to the owner one unbond
+					// period after they left their stake
+					var fromKey *types.Pubkey
+					if item.CandidateKey != nil {
+						key := *item.CandidateKey
+						fromKey = &key
+					}
+					blockchain.stateDeliver.FrozenFunds.AddFund(height+types.GetUnbondPeriod()-types.GetMovePeriod(), item.Address, fromKey, item.CandidateID, item.Coin, amount, 0)
+					continue
+				}
 				blockchain.eventsDB.AddEvent(&eventsdb.StakeMoveEvent{
 					Address:           item.Address,
 					Amount:            amount.String(),
